@@ -363,6 +363,23 @@ theorem mem_walkPacks {lk : Lookup} {out : List (Id × List Node)} {t : Id} {nod
   unfold walkPacks
   exact List.mem_flatMap.mpr ⟨(t, nodes), hm, List.mem_flatMap.mpr ⟨n, hn, hx⟩⟩
 
+/-- `check_trees` marks the packs of a file node's content blobs whatever the node's recorded size, link count, inode and
+device are -/
+theorem nodePacks_ignores_metadata (lk : Lookup) (n : Node) (size links inode device : Nat) :
+    nodePacks lk { n with size := size, links := links, inode := inode, device := device } = nodePacks lk n ∧
+    nodeErrs lk { n with size := size, links := links, inode := inode, device := device } = nodeErrs lk n := by
+  cases n with
+  | mk kind subtree content _ _ _ _ => cases kind <;> exact ⟨rfl, rfl⟩
+
+theorem content_pack_in_nodePacks {lk : Lookup} {n : Node} (hk : n.kind = .file) {ids : List Id}
+    (hc : n.content = some ids) {d : Id} (hd : d ∈ ids) {e : Entry} (he : lk .data d = some e) :
+    e.pack ∈ nodePacks lk n := by
+  unfold nodePacks
+  rw [hk]
+  simp only [hc, Option.getD_some]
+  apply List.mem_append_left
+  exact List.mem_filterMap.mpr ⟨d, hd, by simp [he]⟩
+
 theorem nodeErrs_nil_of_walkErrs {lk : Lookup} {out : List (Id × List Node)} {t : Id} {nodes : List Node}
     {n : Node} (h : walkErrs lk out = []) (hm : (t, nodes) ∈ out) (hn : n ∈ nodes) : nodeErrs lk n = [] := by
   unfold walkErrs at h
